@@ -125,6 +125,24 @@ def run(rep, tier):
                 b = frozenset(ns.get(lst, []))
                 rep.ob("R2", name, "view:%s" % view, a == b, expected=sorted(b), derived=sorted(a) if a is not None else None,
                        where=prov(m, lst, None), msg="%s is not frozenset(%s) at module end (table edited after update_sets/finalize?)" % (view, lst))
+    # ---------------------------------------------------------------- thorough: analyser cross-examination
+    if tier == "thorough":
+        from ..replay import replay_opmaps
+        from ..repo import REPO_ROOT
+        maps, notes = replay_opmaps(REPO_ROOT)
+        agree = skipped = 0
+        for mod, m in sorted(T.all_tables.items()):
+            r = maps.get(mod)
+            if r is None:
+                skipped += 1
+                continue
+            mine = {k.replace("+", "_"): v for k, v in m.ns["opmap"].items()}
+            if r != mine:
+                raise AnalysisError("the folder and the independent literal replay disagree on %s: %s" % (mod, sorted(set(r.items()) ^ set(mine.items()))[:6]))
+            agree += 1
+        rep.extra["cross_examination"] = {"method": "independent replay of literal def_op/rm_op calls (xv/replay.py)", "modules_agreeing": agree,
+                                          "modules_not_replayable": skipped, "notes": {k: v for k, v in notes.items() if v != "replayed"}}
+        rep.floor("tables confirmed by the independent replay", agree, 35)
     rep.configurations = len(T.reachable)
     rep.extra["tables"] = sorted(short(m) for m in T.reachable.values())
     rep.extra["reference_versions"] = REF_VERSIONS
